@@ -25,3 +25,13 @@ func VerifUniqID(n gen.Node) uint64 {
 func VerifNextPID(n gen.Node) uint64 {
 	return atomic.LoadUint64(&n.(*node).nextID)
 }
+
+// VerifNameOwner reads the node's name table: the pid of the process object the name is bound to
+// (whether or not that process has finished its initialisation).
+func VerifNameOwner(n gen.Node, name gen.Atom) (gen.PID, bool) {
+	v, ok := n.(*node).names.Load(name)
+	if ok == false {
+		return gen.PID{}, false
+	}
+	return v.(*process).pid, true
+}
